@@ -23,10 +23,10 @@ C = dict(
         dict(module="Checkpoint_MC", cfg="Checkpoint_MC_2t.cfg", workers=8),
     ] + opcommon.MODEL_CHECKS,
     plan_sources=[
-        dict(name="k1", module="Checkpoint_MC", cfg="Checkpoint_Plan_1.cfg", cap={"quick": 70, "thorough": 1500}, params=P(SH2, T1, 1), workers=8),
-        dict(name="k2", module="Checkpoint_MC", cfg="Checkpoint_Plan_2.cfg", cap={"quick": 50, "thorough": 1500}, params=P(SH2, T1, 2), workers=8),
-        dict(name="k2t", module="Checkpoint_MC", cfg="Checkpoint_Plan_2t.cfg", cap={"quick": 50, "thorough": 1500}, params=P(SH2T, T2, 1), workers=8),
-        dict(name="k2t2", module="Checkpoint_MC", cfg="Checkpoint_Plan_2t2.cfg", cap={"quick": 30, "thorough": 1500}, params=P(SH2T, T2, 2), workers=8),
+        dict(name="k1", module="Checkpoint_MC", cfg="Checkpoint_Plan_1.cfg", cap={"quick": 70, "thorough": 1000}, params=P(SH2, T1, 1), workers=8),
+        dict(name="k2", module="Checkpoint_MC", cfg="Checkpoint_Plan_2.cfg", cap={"quick": 50, "thorough": 1000}, params=P(SH2, T1, 2), workers=8),
+        dict(name="k2t", module="Checkpoint_MC", cfg="Checkpoint_Plan_2t.cfg", cap={"quick": 50, "thorough": 1000}, params=P(SH2T, T2, 1), workers=8),
+        dict(name="k2t2", module="Checkpoint_MC", cfg="Checkpoint_Plan_2t2.cfg", cap={"quick": 30, "thorough": 1000}, params=P(SH2T, T2, 2), workers=8),
     ] + opcommon.sources(40, 700),
     directed="plans/C05.jsonl",
     # plans of OpStream.tla (operation packs of the replicate channel read by per-task channel readers) run on the same
